@@ -192,6 +192,7 @@ func ManageDeployment(client runtimeclient.Client, daemonset *datadoghqv1alpha1.
 	if time.Since(rollingUpdateStartTime) < cleanCanaryLabelsThreshold {
 		canaryPods := &corev1.PodList{}
 		listOptions := []runtimeclient.ListOption{
+			runtimeclient.InNamespace(params.Replicaset.GetNamespace()),
 			runtimeclient.MatchingLabels{
 				datadoghqv1alpha1.ExtendedDaemonSetReplicaSetCanaryLabelKey: datadoghqv1alpha1.ExtendedDaemonSetReplicaSetCanaryLabelValue,
 				datadoghqv1alpha1.ExtendedDaemonSetReplicaSetNameLabelKey:   params.Replicaset.GetName(),
